@@ -116,6 +116,9 @@ def run(ctx):
     if bins is None:
         ctx.violation("harness does not build against /repo", {"unchecked": "cargo build"}, concrete=False)
         return
+    from props import probe_compare as _pc
+    regression_lines(ctx, bins["S"], ["c17"], compare=_pc.fieldwise)
+    regression_lines(ctx, bins["P"], ["c17"], compare=_pc.fieldwise, suffix="_P")
     cases, meta, hist = gen(ctx)
     ndis = 0
     first = None
